@@ -54,6 +54,11 @@ func FromSealed(data []byte) (*Token, cid.Cid, error) {
 		return nil, cid.Undef, err
 	}
 
+	// a token has a single sealed form, and thus a single CID
+	if err := envelope.CheckCanonical(data); err != nil {
+		return nil, cid.Undef, err
+	}
+
 	id, err := envelope.CIDFromBytes(data)
 	if err != nil {
 		return nil, cid.Undef, err
@@ -64,19 +69,12 @@ func FromSealed(data []byte) (*Token, cid.Cid, error) {
 
 // FromSealedReader is the same as Unseal but accepts an io.Reader.
 func FromSealedReader(r io.Reader) (*Token, cid.Cid, error) {
-	cidReader := envelope.NewCIDReader(r)
-
-	tkn, err := FromDagCborReader(cidReader)
+	data, err := io.ReadAll(r)
 	if err != nil {
 		return nil, cid.Undef, err
 	}
 
-	id, err := cidReader.CID()
-	if err != nil {
-		return nil, cid.Undef, err
-	}
-
-	return tkn, id, nil
+	return FromSealed(data)
 }
 
 // Encode marshals a Token to the format specified by the provided
